@@ -15,10 +15,15 @@ import (
 	"log/slog"
 	"math/big"
 	"math/rand"
+	"os"
+	"strconv"
 	"strings"
+	"sync"
 	"testing"
+	"time"
 
 	"github.com/bufbuild/protovalidate-go"
+	"github.com/ethereum/go-ethereum"
 	"github.com/ethereum/go-ethereum/accounts/abi"
 	"github.com/ethereum/go-ethereum/common"
 	"github.com/ethereum/go-ethereum/core/types"
@@ -30,6 +35,8 @@ import (
 	bidderregistrycontract "github.com/primevprotocol/mev-commit/pkg/contracts/bidder_registry"
 	registrycontract "github.com/primevprotocol/mev-commit/pkg/contracts/provider_registry"
 	"github.com/primevprotocol/mev-commit/pkg/evmclient"
+	"github.com/primevprotocol/mev-commit/pkg/evmclient/mockevm"
+	mockkeysigner "github.com/primevprotocol/mev-commit/pkg/keysigner/mock"
 	bidderapi "github.com/primevprotocol/mev-commit/pkg/rpc/bidder"
 	providerapi "github.com/primevprotocol/mev-commit/pkg/rpc/provider"
 	"github.com/primevprotocol/mev-commit/pkg/util"
@@ -75,6 +82,13 @@ type c11In struct {
 	// session: the operations run one after the other on ONE registry object (Kind, Reg of the
 	// parent; each step has its own op, account, answers and context flag)
 	Steps []c11In `json:"steps,omitempty"`
+	// session over a REAL evmclient.EvmClient whose EVM is the scripted fake (reads only): the
+	// recorded requests are the CallContract messages that reached the EVM
+	ViaEvm bool `json:"via_evm,omitempty"`
+	// concurrent: the Steps (stake / prepay calls) overlap on one registry object; every Send
+	// parks at entry until all calls have arrived, then the Sends read their request and return
+	// in this order (indices into Steps)
+	Order []int `json:"order,omitempty"`
 }
 
 // ---- observation ------------------------------------------------------------------------------
@@ -351,11 +365,38 @@ func (ev *c11Env) run(in c11In) (obs c11Obs) {
 	regAddr := common.BytesToAddress(c11Hex(in.Reg))
 	logger := util.NewTestLogger(io.Discard)
 	o := &c11Objects{cl: cl, logger: logger}
+	var client evmclient.Interface = cl
+	if in.Op == "concurrent" {
+		return ev.runConcurrent(in, regAddr, logger)
+	}
+	if in.ViaEvm {
+		// the production path: registry -> evmclient.EvmClient.Call -> EVM.CallContract
+		pk, err := crypto.GenerateKey()
+		if err != nil {
+			panic(err)
+		}
+		ks := mockkeysigner.NewMockKeySigner(pk, crypto.PubkeyToAddress(pk.PublicKey))
+		evm := mockevm.NewMockEvm(1,
+			mockevm.WithCallContractFunc(func(ctx context.Context, msg ethereum.CallMsg, _ *big.Int) ([]byte, error) {
+				return cl.Call(ctx, &evmclient.TxRequest{To: msg.To, CallData: msg.Data, Value: msg.Value,
+					GasLimit: msg.Gas, GasPrice: msg.GasPrice, GasFeeCap: msg.GasFeeCap})
+			}),
+			mockevm.WithBlockNumFunc(func(context.Context) (uint64, error) { return 1, nil }),
+			mockevm.WithNonceAtFunc(func(context.Context, common.Address, *big.Int) (uint64, error) { return 0, nil }),
+			mockevm.WithPendingNonceAtFunc(func(context.Context, common.Address) (uint64, error) { return 0, nil }),
+		)
+		real, err := evmclient.New(ks, evm, logger)
+		if err != nil {
+			panic(err)
+		}
+		defer real.Close()
+		client = real
+	}
 	if in.Kind == 0 {
-		o.prov = registrycontract.New(regAddr, cl, logger)
+		o.prov = registrycontract.New(regAddr, client, logger)
 		o.r = c11Prov{o.prov}
 	} else {
-		o.bid = bidderregistrycontract.New(regAddr, cl, logger)
+		o.bid = bidderregistrycontract.New(regAddr, client, logger)
 		o.r = c11Bid{o.bid}
 	}
 	if in.Op == "session" {
@@ -368,6 +409,165 @@ func (ev *c11Env) run(in c11In) (obs c11Obs) {
 		return obs
 	}
 	return ev.runOn(o, in)
+}
+
+type c11CtxKey struct{}
+
+// c11ConcClient serves overlapping stake / prepay calls.  The call a request belongs to is
+// carried by the context the registry hands through.  Send parks at entry until every call has
+// arrived (or a generous time has passed), and only then -- in the scripted order, one after
+// the other -- reads the fields of the request it was given, as the real EvmClient does after
+// it has taken its lock and asked the node for the nonce.
+type c11ConcClient struct {
+	steps   []c11In
+	mu      sync.Mutex
+	arrived int
+	all     chan struct{}
+	turn    []chan struct{} // turn[k] is closed when the k-th Send of the order may read
+	pos     map[int]int     // call index -> position in the order
+	traces  [][]c11Eff
+	limit   time.Duration
+}
+
+func (c *c11ConcClient) idx(ctx context.Context) int {
+	if v, ok := ctx.Value(c11CtxKey{}).(int); ok && v >= 0 && v < len(c.steps) {
+		return v
+	}
+	return -1
+}
+
+func (c *c11ConcClient) record(i int, e c11Eff) {
+	c.mu.Lock()
+	defer c.mu.Unlock()
+	if i < 0 {
+		i = len(c.traces) - 1 // requests that cannot be attributed: a trace of their own
+	}
+	c.traces[i] = append(c.traces[i], e)
+}
+
+func (c *c11ConcClient) Send(ctx context.Context, req *evmclient.TxRequest) (common.Hash, error) {
+	i := c.idx(ctx)
+	c.mu.Lock()
+	c.arrived++
+	if c.arrived == len(c.steps) {
+		close(c.all)
+	}
+	c.mu.Unlock()
+	select {
+	case <-c.all:
+	case <-time.After(c.limit):
+	}
+	k := len(c.turn) - 1
+	if i >= 0 {
+		k = c.pos[i]
+	}
+	select {
+	case <-c.turn[k]:
+	case <-time.After(c.limit):
+	}
+	c.record(i, c11Req("send", req))
+	if k+1 < len(c.turn) {
+		func() {
+			defer func() { _ = recover() }() // an unattributed second Send may find it closed
+			close(c.turn[k+1])
+		}()
+	}
+	if i < 0 {
+		return common.Hash{}, errors.New("verif: send outside a scripted call")
+	}
+	if c.steps[i].Send.Err != 0 {
+		return common.Hash{}, c11Error(c.steps[i].Send.Err)
+	}
+	return common.BytesToHash(c11Hex(c.steps[i].Send.Data)), nil
+}
+
+func (c *c11ConcClient) WaitForReceipt(ctx context.Context, h common.Hash) (*types.Receipt, error) {
+	i := c.idx(ctx)
+	c.record(i, c11Eff{K: "wait", Hash: hex.EncodeToString(h.Bytes())})
+	if i < 0 {
+		return nil, errors.New("verif: wait outside a scripted call")
+	}
+	switch w := c.steps[i].Wait; w.Kind {
+	case "err":
+		return nil, c11Error(w.Err)
+	case "nil":
+		return nil, nil
+	default:
+		return &types.Receipt{Status: w.Status, TxHash: h}, nil
+	}
+}
+
+func (c *c11ConcClient) Call(ctx context.Context, req *evmclient.TxRequest) ([]byte, error) {
+	c.record(c.idx(ctx), c11Req("call", req))
+	return nil, errors.New("verif: unscripted call")
+}
+
+func (c *c11ConcClient) CancelTx(ctx context.Context, h common.Hash) (common.Hash, error) {
+	c.record(c.idx(ctx), c11Eff{K: "canceltx", Hash: hex.EncodeToString(h.Bytes())})
+	return common.Hash{}, errors.New("verif: CancelTx is not expected")
+}
+
+func (ev *c11Env) runConcurrent(in c11In, regAddr common.Address, logger *slog.Logger) (obs c11Obs) {
+	obs.Trace = []c11Eff{}
+	n := len(in.Steps)
+	slow := 1
+	if v, err := strconv.Atoi(os.Getenv("VERIF_SLOW")); err == nil && v > 0 {
+		slow = v
+	}
+	cl := &c11ConcClient{steps: in.Steps, all: make(chan struct{}), pos: map[int]int{},
+		traces: make([][]c11Eff, n+1), limit: time.Duration(slow) * 3 * time.Second}
+	order := in.Order
+	if len(order) != n {
+		order = make([]int, n)
+		for i := range order {
+			order[i] = i
+		}
+	}
+	for k, i := range order {
+		cl.pos[i] = k
+		cl.turn = append(cl.turn, make(chan struct{}))
+	}
+	close(cl.turn[0])
+	var r c11Registry
+	if in.Kind == 0 {
+		r = c11Prov{registrycontract.New(regAddr, cl, logger)}
+	} else {
+		r = c11Bid{bidderregistrycontract.New(regAddr, cl, logger)}
+	}
+	codes := make([]int, n)
+	var wg sync.WaitGroup
+	for i := range in.Steps {
+		wg.Add(1)
+		go func(i int) {
+			defer wg.Done()
+			defer func() {
+				if rec := recover(); rec != nil {
+					codes[i] = 2
+				}
+			}()
+			var amt *big.Int
+			if in.Steps[i].Amount != nil {
+				amt, _ = new(big.Int).SetString(*in.Steps[i].Amount, 10)
+			}
+			ctx := context.WithValue(context.Background(), c11CtxKey{}, i)
+			if err := r.register(ctx, amt); err != nil {
+				codes[i] = 1
+			}
+		}(i)
+	}
+	wg.Wait()
+	for i := range in.Steps {
+		code := codes[i]
+		tr := cl.traces[i]
+		if tr == nil {
+			tr = []c11Eff{}
+		}
+		if i == 0 && cl.traces[n] != nil {
+			tr = append(tr, cl.traces[n]...) // unattributed requests: shown with the first call
+		}
+		obs.Steps = append(obs.Steps, c11Obs{Trace: tr, Reg: &code})
+	}
+	return obs
 }
 
 // the objects under test: one registry (provider or bidder flavour) over one scripted client
@@ -616,7 +816,7 @@ func (ev *c11Env) abiTable(in c11In, obs c11Obs) string {
 
 func (ev *c11Env) coq(id int, in c11In, obs c11Obs) string {
 	var op, res string
-	if in.Op == "session" {
+	if in.Op == "session" || in.Op == "concurrent" {
 		items := make([]string, len(in.Steps))
 		for i, st := range in.Steps {
 			so, sr := c11CoqOpRes(st, obs.Steps[i])
@@ -1025,6 +1225,70 @@ func TestVerifC11(t *testing.T) {
 			in.Steps = append(in.Steps, st)
 		}
 		run("session-random", in)
+	}
+	// V. the same kind of sessions over a real evmclient.EvmClient (reads only): a successful
+	//    check, then the same reads failing or malformed on the same client, then recovering
+	bad := []c11Ans{{Err: 1}, {Err: 3}, {Data: ""}, {Data: c11Word(big100)[:62]}, {Data: c11Word(big100) + "00"}}
+	for kind := 0; kind < 2; kind++ {
+		for _, b := range bad {
+			for _, steps := range [][]c11In{
+				{chk(okAns(big100), okAns(big150)), chk(b, okAns(big150)), chk(okAns(big100), okAns(big150))},
+				{chk(okAns(big100), okAns(big150)), chk(okAns(big100), b), chk(okAns(big100), okAns(big150))},
+				{chk(okAns(big100), okAns(big150)), chk(b, b), chk(okAns(big200), okAns(big150))},
+				{getMin(okAns(big100)), getMin(b), getStake(okAns(big150)), getStake(b), chk(okAns(big100), okAns(big150)), chk(b, okAns(big150))},
+			} {
+				in := c11In{Kind: kind, Op: "session", Reg: c11RandHex(r, 20), ViaEvm: true}
+				acct := c11RandHex(r, 20)
+				for _, st := range steps {
+					st.Addr = acct
+					in.Steps = append(in.Steps, st)
+				}
+				run("via-evmclient", in)
+			}
+		}
+	}
+	for i := 0; i < e.N/8; i++ {
+		in := c11In{Kind: r.Intn(2), Op: "session", Reg: c11RandHex(r, 20), ViaEvm: true}
+		acct := c11RandHex(r, 20)
+		m := c11RandValue(r)
+		sv := new(big.Int).Add(m, big.NewInt(int64(r.Intn(2))))
+		if sv.Cmp(c11Two256) >= 0 {
+			sv = m
+		}
+		for j, n := 0, 2+r.Intn(4); j < n; j++ {
+			st := c11In{Addr: acct, Op: "check", Calls: []c11Ans{c11RandAns(r, m), c11RandAns(r, sv)}}
+			switch r.Intn(6) {
+			case 0:
+				st.Op, st.Calls = "getmin", []c11Ans{c11RandAns(r, m)}
+			case 1:
+				st.Op, st.Calls = "getstake", []c11Ans{c11RandAns(r, sv)}
+			}
+			in.Steps = append(in.Steps, st)
+		}
+		run("via-evmclient-random", in)
+	}
+	// W. overlapping stake / prepay calls with distinct amounts on one registry object
+	for kind := 0; kind < 2; kind++ {
+		for _, order := range [][]int{{0, 1}, {1, 0}, {0, 1, 2}, {2, 1, 0}, {1, 2, 0}, {2, 0, 1}} {
+			for rep := 0; rep < 2; rep++ {
+				in := c11In{Kind: kind, Op: "concurrent", Reg: c11RandHex(r, 20), Order: order}
+				ws := c11Waits()
+				for j := range order {
+					// distinct amounts: different residues modulo 4
+					amt := new(big.Int).Add(new(big.Int).Lsh(c11RandValue(r), 2), big.NewInt(int64(j+1)))
+					st := c11In{Op: "register", Amount: str(amt), Send: c11Ans{Data: c11RandHex(r, 32)},
+						Wait: c11Wait{Kind: "receipt", Status: 1}}
+					if rep == 1 {
+						st.Wait = ws[r.Intn(len(ws)-1)] // any but the nil receipt
+						if r.Intn(4) == 0 {
+							st.Send = c11Ans{Err: 1}
+						}
+					}
+					in.Steps = append(in.Steps, st)
+				}
+				run("concurrent-register", in)
+			}
+		}
 	}
 	// F. random cases over all operations
 	for i := 0; i < e.N; i++ {
